@@ -9,6 +9,7 @@ func init() {
 	vHarnesses["VerifH_C01_traversal"] = VerifH_C01_traversal
 	vHarnesses["VerifH_C01_path"] = VerifH_C01_path
 	vHarnesses["VerifH_C01_unwind"] = VerifH_C01_unwind
+	vHarnesses["VerifH_C01_distinct"] = VerifH_C01_distinct
 }
 
 // ---------------------------------------------------------------------------
@@ -923,4 +924,66 @@ func VerifH_C01_unwind() {
 		}
 		vAssert("C01.unwind.field-holds-each-element", nw == ng)
 	}
+}
+
+// VerifH_C01_distinct: V().distinct(f) keeps the first row of every distinct value
+// of f and drops rows without f; values of different JSON types are different
+// values even when they print alike (the number 1 and the string "1", true and
+// "true", ["x y"] and ["x","y"]).
+func VerifH_C01_distinct() {
+	n := 2 + vChoice("vertices", vParam("NV", 2))
+	kinds := make([]int, n)
+	g := &vGraph{honourLoad: false}
+	for i := 0; i < n; i++ {
+		data := map[string]interface{}{}
+		kinds[i] = vChoice("v"+string(rune('0'+i))+".code", 8)
+		switch kinds[i] {
+		case 0:
+			data["code"] = 1.0
+		case 1:
+			data["code"] = "1"
+		case 2:
+			data["code"] = true
+		case 3:
+			data["code"] = "true"
+		case 4:
+			data["code"] = []interface{}{"x y"}
+		case 5:
+			data["code"] = []interface{}{"x", "y"}
+		case 6:
+			data["code"] = 2.0
+		default: // no such field
+		}
+		g.vs = append(g.vs, &gdbi.Vertex{ID: "v" + string(rune('0'+i)), Label: "L", Data: data, Loaded: true})
+	}
+	g.compiler = func(s *vGraph) gdbi.Compiler { return NewCompiler(s, IndexStartOptimize) }
+	pipe, err := g.Compiler().Compile([]*gripql.GraphStatement{sV(), sDistinct("code")}, nil)
+	vAssert("C01.distinct.compiles", err == nil)
+	if err != nil {
+		return
+	}
+	rows := vRunPipe(g, pipe, 2)
+	var want []string
+	for i := 0; i < n; i++ {
+		if kinds[i] == 7 {
+			continue
+		}
+		first := true
+		for j := 0; j < i; j++ {
+			if kinds[j] == kinds[i] {
+				first = false
+			}
+		}
+		if first {
+			want = append(want, "v"+string(rune('0'+i)))
+		}
+	}
+	vReach("c01.distinct.ran")
+	ok := len(rows) == len(want)
+	for i := range rows {
+		if i < len(want) && (rows[i].GetVertex() == nil || rows[i].GetVertex().Gid != want[i]) {
+			ok = false
+		}
+	}
+	vAssert("C01.distinct.one-row-per-typed-value", ok)
 }
